@@ -79,10 +79,20 @@ def check_typed(fx, rep, rule, impl):
             cz = NONE
         return ("adt", "StackTrace", "StackTrace", (("exception", ex), ("frames", frames), ("cause", cz)))
 
+    loop_forms = {}
+
     def outcome(st, out):
         v = fc.rewrite(out[1], rw)
         if v[0] == "adt" and v[1] == "StackTrace":
             d = dict(v[3])
+            fv = d.get("frames")
+            if fv is not None and fv[0] == "loop":
+                # frames built by an explicit `for f in &trace.frames` loop instead of a fold
+                if fv not in loop_forms:
+                    loop_forms[fv] = frames_loop_form(fx, sy, fv, slf, tr, rf)
+                okl, desc_l = loop_forms[fv]
+                if okl:
+                    d["frames"] = ("FRAMES", call("core::slice::iter", mk_field(tr, "frames")), call("std::vec::Vec::with_capacity", call("std::vec::Vec::len", mk_field(tr, "frames"))))
             return ("adt", "StackTrace", "StackTrace", tuple((k, d.get(k)) for k in ("exception", "frames", "cause")))
         return v
     bad, n = fc.compare_paths(res, ref, outcome, rw=rw)
@@ -100,6 +110,11 @@ def check_typed(fx, rep, rule, impl):
                           found="[%s] when %s: %s = %s" % (impl, S.cstr(conds), fields[0], S.tstr(dio.get(fields[0])) if dio.get(fields[0]) else None),
                           expected="%s = %s" % (fields[0], S.tstr(dro.get(fields[0]))))
     # the fold closure: remapped frames if any, else the original frame; never nothing
+    if loop_forms and not folds:
+        for fv, (okl, desc_l) in loop_forms.items():
+            rep.check(rule, "%s/frames-fold/%s" % (rule, impl), okl, loc=F.short_file(b["sp"]), found=desc_l,
+                      expected="per frame (explicit loop over trace.frames from an empty vector): all of remap_frame(f)'s frames if it yields any, else push the unchanged frame")
+        return
     rep.check(rule, "%s/frames-fold/%s/unique" % (rule, impl), len(folds) == 1, loc=F.short_file(b["sp"]), found="%d fold(s)" % len(folds),
               expected="frames produced by one fold over trace.frames", nontrivial=False)
     for ft in folds:
@@ -130,6 +145,98 @@ def check_typed(fx, rep, rule, impl):
             okf = okf and good and len(effs) == 1
         rep.check(rule, "%s/frames-fold/%s" % (rule, impl), okf and len(paths) == 2, loc=F.short_file(b["sp"]), found=desc,
                   expected="per frame: extend with remap_frame(f) if it yields any frame, else push the unchanged frame; exactly one of the two on every path")
+
+
+def frames_loop_form(fx, sy, fv, slf, tr, rf):
+    """frames vector built by a loop: (ok, description). Accepted per-frame bodies (f = the loop element):
+       A  peekable(remap_frame(f)): peek is Some -> extend(frames, it)            | else push(frames, f.clone())
+       B  it = remap_frame(f):      next is Some -> push(first); extend(frames, it) | else push(frames, f.clone())"""
+    V, idx = fv[1], fv[2]
+    L = None
+    for k_ in sy.loop_order:
+        if sy.loops[k_]["index"] == idx:
+            L = sy.loops[k_]
+    if L is None:
+        return False, "loop not found"
+    import readers as RD
+    drv = RD.driver_of_loop(L)
+    frames_f = mk_field(tr, "frames")
+    drv_ok = drv in (frames_f, call("core::slice::iter", frames_f), call("std::iter::IntoIterator::into_iter", frames_f))
+    vid = None
+    for n_ in F.walk(L["node"]["body"]):
+        if n_.get("k") in ("Var", "Upvar") and n_.get("name") == V:
+            vid = n_["id"]
+    pre = L["pre"].env.get(vid)
+    pre_ok = pre in (call("std::vec::Vec::with_capacity", call("std::vec::Vec::len", frames_f)), call("std::vec::Vec::new"))
+    base = len(L["entry"].conds)
+    # the loop's own iterator variable (the one whose pre-loop value is the driver)
+    drv_name = None
+    for n_ in F.walk(L["node"]["body"]):
+        if F.is_call(n_, "std::iter::Iterator::next"):
+            v_ = F.strip(n_["args"][0])
+            if v_.get("k") in ("Var", "Upvar") and L["pre"].env.get(v_["id"]) == drv:
+                drv_name = v_["name"]
+                break
+
+    def is_drv_next(t):
+        return t[0] in ("mcall", "call") and R.is_next(t[1]) and t[2] and t[2][0][0] == "place" and t[2][0][1] == drv_name
+
+    def rw_drv(t):
+        if t[0] == "payload" and t[2] == "Some" and (t[1] == R.NEXT or is_drv_next(t[1])):
+            return R.ELEM
+        if t[0] == "mcall" and is_drv_next(t):
+            return R.NEXT
+        return None
+    desc = ["driver %s" % (S.tstr(drv) if drv else "?"), "initial %s" % (S.tstr(pre) if pre else "?")]
+    okp = drv_ok and pre_ok
+    n_some = n_none = n_end = 0
+    for st, (k, v) in L["paths"]:
+        conds = [(fc.rewrite(a_, rw_drv), p_) for a_, p_ in st.conds[base:]]
+        effs = [fc.rewrite(e_, rw_drv) for e_ in st.effects if e_[0] == "call" and not is_drv_next(e_)]
+        a_ = fc.assignment(tuple(conds))
+        desc.append("%s -> %s [%s]" % (S.cstr(tuple(conds))[:160], [S.tstr(e_)[:90] for e_ in effs], k))
+        if a_.get(("is", R.NEXT, "Some")) is False:
+            n_end += 1
+            okp = okp and k == S.BRK and not [e_ for e_ in effs if not R.is_next(e_[1])]
+            continue
+        f_ = R.ELEM
+        kept = ("adt", "StackFrame", "StackFrame", tuple((fn, mk_field(f_, fn)) for fn in ("class", "method", "line", "file", "parameters")))
+        rcall = call(S.short_path(rf), slf, f_)
+        acc = [e_ for e_ in effs if not R.is_next(e_[1])]
+        nexts = [e_ for e_ in effs if R.is_next(e_[1])]
+        on_frames = all(e_[2][0] == ("place", V, ()) for e_ in acc)
+        # which iterator test decided this path?
+        pk = fc.canon_atom(("is", ("peek", call("std::iter::Iterator::peekable", rcall)), "Some"))[0]
+        has = a_.get(pk)
+        form = "A"
+        if has is None and len(nexts) == 1 and nexts[0][2][0][0] == "place":
+            nx = ("mcall",) + tuple(nexts[0][1:])
+            has = a_.get(fc.canon_atom(("is", nx, "Some"))[0])
+            form = "B"
+        if k != S.CONT or not on_frames or has is None:
+            okp = False
+            continue
+        if has is False:
+            n_none += 1
+            okp = okp and len(acc) == 1 and acc[0][1].endswith("Vec::push") and R1.canon_iter(acc[0][2][1]) == kept
+        elif form == "A":
+            n_some += 1
+            okp = okp and len(acc) == 1 and acc[0][1].endswith("Extend::extend") and "remap_frame" in repr(acc[0][2][1])
+        else:
+            n_some += 1
+            okp = okp and len(acc) == 2 and acc[0][1].endswith("Vec::push") and acc[0][2][1] == mk_payload(nx, "Some", "0") \
+                and acc[1][1].endswith("Extend::extend") and acc[1][2][1][:2] == ("after", nx)
+            # the iterator `next` was called on is remap_frame(f) itself
+            it_pl = nexts[0][2][0]
+            itv = None
+            for n_ in F.walk(L["node"]["body"]):
+                if n_.get("k") == "Block":
+                    for s_ in n_["stmts"]:
+                        if s_["k"] == "Let" and s_["pat"].get("k") == "Bind" and s_["pat"].get("name") == it_pl[1] and s_.get("init") is not None:
+                            itv = F.strip(s_["init"])
+            okp = okp and itv is not None and itv.get("k") == "Call" and "fn" in itv and fx.by_dp.get(itv["fn"].get("dp")) == rf
+    okp = okp and n_some == 1 and n_none == 1 and n_end == 1
+    return okp, desc
 
 
 def check_display_templates(fx, rep, rule):
